@@ -4,9 +4,17 @@ IEEE-754 words for floats, a u32 count before strings and dynamic arrays, a one-
 optionals.  Dual use: PyVC translates these definitions to SMT; natively they are the replay oracle."""
 from spec.prelude import *
 from spec.bits import *
+try:  # native use only (PyVC reads this file with `ast` and ignores imports)
+    from fcp.specs.type import (Type, NumericType, UnsignedType, SignedType, FloatType, DoubleType, StringType, EnumType,
+                                StructType, ArrayType, DynamicArrayType, OptionalType)
+except Exception:  # pragma: no cover
+    pass
 
 
 # ---------------------------------------------------------------- floats: opaque values with their IEEE-754 images
+_nat = dict(f32_bits=f32_bits, f64_bits=f64_bits, of_f32_bits=of_f32_bits, of_f64_bits=of_f64_bits, is_f32=is_f32)
+
+
 def f32_bits(x: "float") -> "int":
     ...
 
@@ -26,6 +34,9 @@ def of_f64_bits(w: "int") -> "float":
 def is_f32(x: "float") -> "bool":
     """x is exactly representable as binary32"""
     ...
+
+
+globals().update(_nat)   # natively the IEEE-754 images are computed with `struct` (spec/prelude.py)
 
 
 # ---------------------------------------------------------------- schema look-ups
